@@ -8,6 +8,12 @@ TRUST = "rustc's type checker, MIR construction and trait resolution (facts are 
 
 # id -> (level, technique, text, design_ref) ; None => not yet claimed
 CLAIMS = {
+    "C02": (
+        "other",
+        "affine symbolic path execution over MIR (Karr-style linear equalities, no solver), guard dominance, field-store inventory",
+        "Decides that every reader method that writes a bookkeeping field preserves the laws the operation histories compose: position/mark conservation (advance by +n only; request_more and realignment leave both unchanged), window moved with exactly its bytes to offset 0, read results appended at the window end into a slice of exactly chunk_size behind n <= chunk_size, shrink keeps the window, complete/io_error set exactly on Ok(0)/non-Interrupted Err, from_buf_reader chains buffered bytes first. Content equality as such and std's Vec/slice semantics are trusted, not decided.",
+        "DESIGN.md §4 C02",
+    ),
     "C04": (
         "other",
         "interprocedural typestate analysis over MIR (path-sensitive abstract interpretation with summaries)",
@@ -31,6 +37,12 @@ CLAIMS = {
         "dominance rules over MIR (buffer reset discipline on the def-level call graph; guard extraction on the reader's compaction code)",
         "The heap bound itself is a runtime quantity and is not decided. Decided are necessary structural conditions: every growth of a buffer that outlives the call, in code reachable from a streaming parser entry point, is dominated by a clear() of the same buffer; compaction in request_more is decided on live operands, moves the window to offset 0 and the buffer only grows when window + chunk does not fit. (Allocation sized by declared counts is C05-R5.)",
         "DESIGN.md §4 C10",
+    ),
+    "C14": (
+        "other",
+        "unsafe-operation inventory over MIR with guard-dominance patterns per class, field confinement, wrap-before-check rule",
+        "Every operation that needs `unsafe` in the workspace (27 today) is classified and must satisfy its class's guard pattern (dominating comparison with the same operands, invariant window, validated or ASCII-class bytes); unknown classes are violations. Trusted fields are private and confined; unchecked advancing is `unsafe fn`; no possibly wrapped value is stored into a trusted field before the check that panics; an untrusted Read cannot enlarge the window. UB inside std/itoap, aliasing models and the SWAR kernels' byte classes are not decided.",
+        "DESIGN.md §4 C14",
     ),
     "C15": (
         "proof",
